@@ -58,10 +58,32 @@ func init() {
 		Level: "exploration",
 		Rule: "the same Plan and schedule are executed against worlds that differ only in how the schema reached NewTranscoder: by name from generated code (reference); NewServiceWithSchema with the generated descriptor; a fresh protodesc file built from the serialised descriptor; " +
 			"a private registry rebuilt file by file with google.api.http parsed as a dynamic extension; a service descriptor without parent file; a resolver that answers NotFound for every type (alone and on top of the fresh file), and resolvers that know every type except the request-only (response-only) ones. " +
-			"scenario corpus: REST requests rendered by the reference encoder for the 13 bound LibraryService methods (routing, binding, response_body), RPC requests in every unary client form incl. Connect GET, scripted backend errors. " +
+			"scenario corpus: REST and RPC requests against two services defined in one run-time built file and registered in either order; REST requests rendered by the reference encoder for the 13 bound LibraryService methods (routing, binding, response_body), RPC requests in every unary client form incl. Connect GET, scripted backend errors. " +
 			"oracle: equal canonical outcome at the client and equal view at the backend across all variants. distinct = (scenario kind, client form, method, schedule hash); non-trivial = the request reached ServeHTTP. " +
 			"vanguardgrpc.NewTranscoder is not simulated (grpc-go's handler transport runs its own goroutines): not covered by this check",
 		Gen: func(c *Chooser, tier string) *Plan {
+			if c.Prob(0.3) {
+				// two services that are defined in one file (the run-time built sim.proto), registered in either order: each
+				// provenance builds its own descriptor instance per service, so "same file" is a matter of content, not identity
+				a := ServicePlan{Schema: "sim", MaxMsg: 1 << 20}
+				b := ServicePlan{Schema: "sim2", MaxMsg: 1 << 20, Protocols: genSubset(c, allTargetProtocols, true), Codecs: genSubset(c, []string{"proto", "json"}, true)}
+				cfg := ConfigPlan{Services: []ServicePlan{a, b}}
+				if c.Bool() {
+					cfg.Services = []ServicePlan{b, a}
+				}
+				var r *RPCPlan
+				if c.Prob(0.7) {
+					r = genRESTClientRPC(c, &cfg, restMethods[c.Intn(11)])
+				} else {
+					r = genRPC(c, ScenOpts{MaxMsgs: 2, MaxBytes: 40, NoErr: true})
+				}
+				if r == nil {
+					return nil
+				}
+				p := &Plan{Config: cfg, RPCs: []RPCPlan{*r}, Sched: SchedPlan{Policy: "seq"}, Pool: PoolPlan{Policy: "lifo"}}
+				p.Note = "two-services-one-file"
+				return p
+			}
 			svc := ServicePlan{Schema: "library", Via: "name", MaxMsg: 1 << 20, Protocols: genSubset(c, allTargetProtocols, true), Codecs: genSubset(c, []string{"proto", "json"}, true)}
 			cfg := ConfigPlan{Services: []ServicePlan{svc}}
 			method := libraryUnary[c.Intn(len(libraryUnary))]
